@@ -272,6 +272,41 @@ def is_input_root(root):
     return isinstance(root, str)
 
 
+class Store:
+    """(root, path) -> value, indexed by root so that aggregate operations only scan one object"""
+
+    def __init__(self):
+        self.m = {}
+
+    def __contains__(self, k):
+        d = self.m.get(k[0])
+        return d is not None and k[1] in d
+
+    def __getitem__(self, k):
+        return self.m[k[0]][k[1]]
+
+    def __setitem__(self, k, v):
+        d = self.m.get(k[0])
+        if d is None:
+            d = self.m[k[0]] = {}
+        d[k[1]] = v
+
+    def __delitem__(self, k):
+        del self.m[k[0]][k[1]]
+
+    def get(self, k, default=None):
+        d = self.m.get(k[0])
+        if d is None:
+            return default
+        return d.get(k[1], default)
+
+    def root(self, r):
+        return self.m.get(r) or {}
+
+    def drop_root(self, r):
+        self.m.pop(r, None)
+
+
 class _Return(Exception):
     def __init__(self, v):
         self.v = v
@@ -330,8 +365,10 @@ class SymEx:
                     self.by_decl[(id(facts), d)] = f
         self.opaque = opaque          # callable(symex, call_node, callee, this_loc, args, fn) -> value | None
         self.no_inline = no_inline    # regex of callees never inlined (handed to `opaque`)
-        self.store = {}
-        self.links = {}
+        self.store = Store()
+        self.links = Store()          # (root, path) of a copy -> Loc of the (input) original
+        self.link_src = {}            # source root -> number of links into it
+        self.frame_roots = []         # stack of lists: roots of locals/by-value parameters of the active frames
         self.steps = 0
         self.frames = 0
         self.temps = 0
@@ -354,26 +391,31 @@ class SymEx:
 
     def write(self, loc, v, line=None):
         k = loc.key()
-        for (r, p), src in self.links.items():
-            if src.root == loc.root and (src.path == loc.path[:len(src.path)] or loc.path == src.path[:len(loc.path)]):
-                raise NotClosedForm("write to %s which is aliased by an aggregate copy" % loc_name(loc))
+        if self.link_src.get(loc.root):
+            for r, d in self.links.m.items():
+                for p, src in d.items():
+                    if src.root == loc.root and (src.path == loc.path[:len(src.path)] or loc.path == src.path[:len(loc.path)]):
+                        raise NotClosedForm("write to %s which is aliased by a copy" % loc_name(loc))
         self.store[k] = v
         if self.trace_writes is not None:
             self.trace_writes.append((loc, line))
 
     def sub_entries(self, loc):
         n = len(loc.path)
-        for (r, p), v in list(self.store.items()):
-            if r == loc.root and p[:n] == loc.path:
+        for p, v in list(self.store.root(loc.root).items()):
+            if p[:n] == loc.path:
                 yield p[n:], v
 
     def copy_agg(self, dst, src, line=None):
         """aggregate copy dst <- src (snapshot of written cells, link for unwritten input cells)"""
         n = len(dst.path)
-        for k in [k for k in self.store if k[0] == dst.root and k[1][:n] == dst.path]:
-            del self.store[k]
-        for k in [k for k in self.links if k[0] == dst.root and k[1][:n] == dst.path]:
-            del self.links[k]
+        d = self.store.root(dst.root)
+        for pth in [pth for pth in d if pth[:n] == dst.path]:
+            del d[pth]
+        d = self.links.root(dst.root)
+        for pth in [pth for pth in d if pth[:n] == dst.path]:
+            self.link_src[d[pth].root] -= 1
+            del d[pth]
         ents = list(self.sub_entries(src))
         for rest, v in ents:
             self.store[(dst.root, dst.path + rest)] = v
@@ -389,6 +431,7 @@ class SymEx:
                 break
         if is_input_root(base.root) or base is not src:
             self.links[dst.key()] = base
+            self.link_src[base.root] = self.link_src.get(base.root, 0) + 1
 
     def new_temp(self, what="T"):
         self.temps += 1
@@ -396,7 +439,17 @@ class SymEx:
 
     def outputs(self, root):
         """{path: value} of everything written below the root"""
-        return {p: v for (r, p), v in self.store.items() if r == root}
+        return dict(self.store.root(root))
+
+    def drop_frame(self, roots, keep=None):
+        for r in roots:
+            if keep is not None and r == keep:
+                continue
+            self.store.drop_root(r)
+            d = self.links.m.pop(r, None)
+            if d:
+                for src in d.values():
+                    self.link_src[src.root] -= 1
 
     # --- helpers ----------------------------------------------------------------------------------
     def tick(self):
@@ -528,6 +581,8 @@ class SymEx:
             return
         self.frames += 1
         loc = Loc(("L", v["n"], self.frames))
+        if self.frame_roots:
+            self.frame_roots[-1].append(loc.root)
         env[v["d"]] = loc
         if init is None:
             return
@@ -789,6 +844,8 @@ class SymEx:
             else:
                 self.frames += 1
                 loc = Loc(("A", p["n"], self.frames))
+                if self.frame_roots:
+                    self.frame_roots[-1].append(loc.root)
                 if isinstance(x, Loc):
                     self.copy_agg(loc, x)
                 elif isinstance(x, list):
@@ -803,24 +860,28 @@ class SymEx:
         new_env = {}
         if this_loc is not None:
             new_env["this"] = this_loc
-        self.bind_args(target, args_n, env, fn, new_env)
-        self.inlined.add(target.full)
-        ret = None
+        self.frame_roots.append([])
         try:
-            self.exec(target.body, new_env, target)
-        except _Return as r:
-            ret = r.v
-        rt = target.type(target.d.get("ret")) if target.d.get("ret") is not None else ""
-        if isinstance(ret, Loc):
-            if is_ref_type(rt):
-                return ret
-            if ret.key() in self.store:
-                return self.read(ret)
-            # returned by value: snapshot
-            t = self.new_temp("R")
-            self.copy_agg(t, ret)
-            return t
-        return ret
+            self.bind_args(target, args_n, env, fn, new_env)
+            self.inlined.add(target.full)
+            ret = None
+            try:
+                self.exec(target.body, new_env, target)
+            except _Return as r:
+                ret = r.v
+            rt = target.type(target.d.get("ret")) if target.d.get("ret") is not None else ""
+            if isinstance(ret, Loc):
+                if is_ref_type(rt):
+                    return ret
+                if ret.key() in self.store:
+                    return self.read(ret)
+                # returned by value: snapshot
+                t = self.new_temp("R")
+                self.copy_agg(t, ret)
+                return t
+            return ret
+        finally:
+            self.drop_frame(self.frame_roots.pop())
 
     def construct(self, n, env, fn, loc):
         """constructor call; `loc` is the object being initialised (None: a temporary)"""
@@ -843,13 +904,17 @@ class SymEx:
                     return r
             raise NotClosedForm("constructor %s has no body in the fact base (%s:%s)" % (callee, fn.file, n.get("l")))
         new_env = {"this": loc}
-        self.bind_args(target, args_n, env, fn, new_env)
-        self.inlined.add(target.full)
-        self.run_inits(target, new_env, loc)
+        self.frame_roots.append([])
         try:
-            self.exec(target.body, new_env, target)
-        except _Return:
-            pass
+            self.bind_args(target, args_n, env, fn, new_env)
+            self.inlined.add(target.full)
+            self.run_inits(target, new_env, loc)
+            try:
+                self.exec(target.body, new_env, target)
+            except _Return:
+                pass
+        finally:
+            self.drop_frame(self.frame_roots.pop(), keep=loc.root)
         return loc
 
     def run_inits(self, target, new_env, loc):
